@@ -314,8 +314,13 @@ def patch_arrays(ctx, complex_patches=False):
     B, nr, nc = pos_int(ctx, "B", 0), pos_int(ctx, "nr"), pos_int(ctx, "nc")
     H, W = pos_int(ctx, "H"), pos_int(ctx, "W")
     patches = cm.fresh_cx(ctx, "patches", (B, nr, nc)) if complex_patches else cm.fresh_real(ctx, "patches", (B, nr, nc))
+    # storage precision of the patches: single or double (the scatter must accumulate and return in the patches' own dtype)
+    double = bool(ctx.branch(ctx.fresh("patches_double_precision", "bool").t))
+    dt = torch_dtype(("complex128" if double else "complex64") if complex_patches else ("float64" if double else "float32"))
+    cm.tag_dtype(patches, dt)
     indices = cm.fresh_real(ctx, "indices", (B, nr, nc), kind="int")
-    return NS(patches=patches, indices=indices, obj_shape=(H, W), H=H, W=W, h0=idx_in(ctx, "h0", H), w0=idx_in(ctx, "w0", W))
+    return NS(patches=patches, indices=indices, obj_shape=(H, W), H=H, W=W, h0=idx_in(ctx, "h0", H), w0=idx_in(ctx, "w0", W), dt=dt,
+              case=str(dt).replace("torch.", ""))
 
 
 def spb_setup(ctx):
@@ -336,7 +341,14 @@ def spb_ensures(s):
         h, w = lift(s.h0), lift(s.w0)
         j = h * lift(s.obj_shape[1]) + w
         out.append(("out[h,w]=sum{p[n]: idx[n]==h*W+w}", r_term(res.fn(h, w)) == scatter_spec(flat(s.ctx, s.indices), flat(s.ctx, s.patches), j).t))
+    out.append(dtype_clause(s, res))
     return out
+
+
+def dtype_clause(s, res):
+    """exact adjoint in the arithmetic of the input: accumulated and returned in the dtype of the patches (no narrowing)"""
+    want, got = cm.dtype_tag(s.patches), cm.dtype_tag(res)
+    return ("result (and accumulator) dtype = patches.dtype", z3.BoolVal(want is None or got == want))
 
 
 def spb_result(ctx, s):
@@ -344,6 +356,7 @@ def spb_result(ctx, s):
     W = lift(s.obj_shape[1])
     r = SymArr(tuple(s.obj_shape), lambda h, w: scatter_spec(fi, fp, lift(h) * W + lift(w)), "real")
     r.c16_cx = False
+    cm.tag_dtype(r, cm.dtype_tag(s.patches))
     return cm.like(r, None, ctx)
 
 
@@ -377,6 +390,7 @@ def sp_ensures(s):
     else:
         out.append(("real:out[h,w]=sum{p[n]: idx[n]==h*W+w}", ceq(v, scatter_spec(fi, flat(ctx, s.patches), j))))
         out.append(("real-result", z3.BoolVal(not isinstance(v, Cx))))
+        out.append(dtype_clause(s, res))
     return out
 
 
